@@ -44,7 +44,7 @@
      the correspondence run: that ties the model's events to the code. *)
 From P2 Require Import Base.Prelude Sem.Num Sem.Syntax Sem.Ops Sem.Lib Sem.Ref Sem.Gen Sem.Sim Sem.RefMono Sem.Opt
   Sem.OptRel Sem.OptRelProofs Sem.OptProofs Sem.OptWf Sem.OptSound Sem.OptFlagsProofs Sem.OptValue
-  Sem.OptExamples Sem.OptCfg Sem.Trace Sem.TraceProofs Sem.TraceSim Sem.TraceOpt Generated.ValueCfg Run.C02Run.
+  Sem.OptExamples Sem.OptCfg Sem.AstEq Sem.AstEqProofs Sem.OptTieProofs Sem.Trace Sem.TraceProofs Sem.TraceSim Sem.TraceOpt Generated.ValueCfg Run.C02Run.
 
 
 (* more fuel never changes a result other than "out of fuel" *)
@@ -338,6 +338,76 @@ Example C02_nonvacuous_computed_closure :
   eval [] 50 [(nv_a, VInt 5)] (optimize value_flags [] 50 nv_prog2) = Ok (VInt 8).
 Proof. vm_compute. repeat split. Qed.
 
+(* ---------- the AST tie: the theorems reach the tree the REAL optimizer built ----------
+
+   The correspondence run dumps, per program, the real parser's tree without optimizer (A) and the tree
+   the real parser returns WITH the optimizer (B) and checks ast_eqb (optimize c02_flags ... A) B = true
+   (Run/C02Run.v c02_tie_class = 0).  ast_eqb decides Leibniz equality, so on every such program the
+   soundness theorems hold for B itself - the real optimizer's output, not only the model's. *)
+Theorem ast_eqb_decides_equality : forall a b, ast_eqb a b = true <-> a = b.
+Proof. exact ast_eqb_iff. Qed.
+
+Theorem C02_tied_ast_sound : forall fl known fuel,
+  cfg_ok fl = true ->
+  forall a b, ast_eqb (optimize fl known fuel a) b = true ->
+  forall n m env,
+  side_ok a = true ->
+  (forall x v, lookup x env = Some v -> vrel known v v) ->
+  n <= m ->
+  decided (eval known n env a) ->
+  orel known (eval known n env a) (eval known m env b).
+Proof. exact tied_ast_sound_lemma. Qed.
+
+(* the instance the run checks: regenerated flags + tick/ptick, the regenerated method table, the run's fuel *)
+Theorem C02_tied_ast_sound_run : forall a b,
+  ast_eqb (c02_optimized a) b = true ->
+  forall n m env,
+  side_ok a = true ->
+  (forall x v, lookup x env = Some v -> vrel value_methods v v) ->
+  n <= m ->
+  decided (eval value_methods n env a) ->
+  orel value_methods (eval value_methods n env a) (eval value_methods m env b).
+Proof. exact (tied_ast_sound_lemma c02_flags value_methods c02_fuel (proj2 C02_cfg_ok_generated)). Qed.
+
+Theorem C02_tied_ast_first_order_exact : forall fl known fuel,
+  cfg_ok fl = true ->
+  forall a b, ast_eqb (optimize fl known fuel a) b = true ->
+  forall n m env,
+  side_ok a = true ->
+  (forall x v, lookup x env = Some v -> fo v = true) ->
+  n <= m ->
+  fo_outcome (eval known n env a) = true ->
+  eval known m env b = eval known n env a.
+Proof. exact tied_ast_sound_exact_lemma. Qed.
+
+(* down to generated code: when the real optimized tree B holds first-order constants only and Generate
+   accepts it, the function generated from B returns the first-order value the reference semantics gives
+   the ORIGINAL program (composition with C01_generated) *)
+Theorem C02_tied_ast_generated_code : forall fl known fuel,
+  cfg_ok fl = true ->
+  forall a b, ast_eqb (optimize fl known fuel a) b = true ->
+  forall n m argnames args v,
+  side_ok a = true -> side_ok b = true ->
+  gen_check (S (ast_size b)) (map Some argnames) [] b = true ->
+  forallb fo args = true -> length args = length argnames ->
+  n <= m ->
+  eval known n (combine argnames args) a = Ok v -> fo v = true ->
+  run known m b argnames args = Ok v.
+Proof. exact tied_ast_generated_lemma. Qed.
+
+(* non-vacuity: the tree (x * 9) + 2 as the harness prints it is tied to the optimizer model's output on
+   nv_prog; all hypotheses of the three theorems hold and the generated code of the tied tree returns 65 *)
+Example C02_nonvacuous_tied_ast :
+  let b := AOp op_add (AOp op_mul (AIdent nv_x) (AConst (VInt 9))) (AConst (VInt 2)) in
+  cfg_ok value_flags = true /\
+  ast_eqb (optimize value_flags [] 50 nv_prog) b = true /\
+  ast_eqb nv_prog b = false /\
+  side_ok nv_prog = true /\ side_ok b = true /\
+  gen_check (S (ast_size b)) (map Some [nv_x]) [] b = true /\
+  eval [] 50 (combine [nv_x] [VInt 7]) nv_prog = Ok (VInt 65) /\
+  run [] 50 b [nv_x] [VInt 7] = Ok (VInt 65).
+Proof. vm_compute. repeat split. Qed.
+
 (* the table obligation: the flags regenerated from the current value.New() (Generated/ValueCfg.v ->
    Sem/OptCfg.v generated_flags) agree with value_flags, the configuration all theorems below are
    about: same operators with the same IsPure/IsCommutative flags, same unary operators, every static
@@ -388,3 +458,8 @@ Print Assumptions optimize_preserves_trace_syntactically_refuted.
 Print Assumptions C02_generate_runs_no_host_call_closure.
 Print Assumptions C02_generate_runs_no_host_call_method.
 Print Assumptions C02_generate_runs_no_host_call_static.
+Print Assumptions ast_eqb_decides_equality.
+Print Assumptions C02_tied_ast_sound.
+Print Assumptions C02_tied_ast_sound_run.
+Print Assumptions C02_tied_ast_first_order_exact.
+Print Assumptions C02_tied_ast_generated_code.
